@@ -206,6 +206,8 @@ struct V {
     non_last_cond: std::cell::Cell<bool>,
     /// matches on traceable values (parameter / variable) seen in the current condition
     prov_matches: std::cell::Cell<u32>,
+    /// inside the condition of any branch
+    in_any_cond: std::cell::Cell<bool>,
 }
 
 impl V {
@@ -355,13 +357,19 @@ impl V {
         }
         for x in &bound {
             if let Some(old) = env.lookup(x) {
-                if old.depth == env.depth && (old.prov || old.used.get()) {
-                    return Err(format!("same-scope rebinding of {x}, which was read or bound to a traceable value (open finding: stale type after rebinding)"));
+                if old.prov || old.used.get() {
+                    return Err(format!("rebinding of {x}, which was read or bound to a traceable value (open finding: stale type after rebinding)"));
                 }
             }
         }
         if alt_inside_partial(pat, false) {
             return Err("alternation inside a partial pattern (open finding)".into());
+        }
+        if self.in_any_cond.get() && constraining_subpatterns(pat) == 1 && (pat_has_value_requirement_below(pat) || super::progen::pat_has_pin_or_repeat(pat)) {
+            return Err("tuple pattern with one type-constraining field and an equality / literal requirement in a branch condition (open finding: single-field complement)".into());
+        }
+        if nested_repeat(pat) {
+            return Err("repeated binder inside a nested tuple pattern (open finding: dispatch guard ignores the equality requirement)".into());
         }
         if alt_of_structured(pat) {
             return Err("alternation whose alternatives are tuple patterns with fields (open finding)".into());
@@ -513,17 +521,6 @@ impl V {
                                 return Err("binding chain inside a tuple field".into());
                             }
                             env.kill_pending();
-                            if has_spread {
-                                // open finding: the fields of a tuple WITH a spread do not receive the
-                                // flowing value (only `~` reaches it)
-                                match c.terms.first() {
-                                    Some(Term::Access(Src::Ripple, _)) => {}
-                                    Some(t) if self.uses_flow(env, t, cx) => {
-                                        return Err("field of a spread tuple consumes the flow other than through `~` (open finding)".into())
-                                    }
-                                    _ => {}
-                                }
-                            }
                             self.in_field.set(self.in_field.get() + 1);
                             let r = self.terms(env, tin, &c.terms, false, cx, fs);
                             self.in_field.set(self.in_field.get() - 1);
@@ -566,7 +563,9 @@ impl V {
                 let mm = self.multi_match_cond.replace(false);
                 let nl = self.non_last_cond.replace(false);
                 let pm = self.prov_matches.get();
+                let ac = self.in_any_cond.replace(false);
                 let r = self.branches(&inner, tin, e, tail, cx);
+                self.in_any_cond.set(ac);
                 self.prov_matches.set(pm);
                 self.in_field.set(depth);
                 self.in_cond.set(ic);
@@ -580,7 +579,9 @@ impl V {
                 let mm = self.multi_match_cond.replace(false);
                 let nl = self.non_last_cond.replace(false);
                 let pm = self.prov_matches.get();
+                let ac = self.in_any_cond.replace(false);
                 let r = self.function(env, param, body);
+                self.in_any_cond.set(ac);
                 self.prov_matches.set(pm);
                 self.in_field.set(depth);
                 self.in_cond.set(ic);
@@ -770,7 +771,9 @@ impl V {
             let mm = self.multi_match_cond.replace(cond_match_count(&b.cond) >= 2);
             let nl = self.non_last_cond.replace(!is_last);
             self.prov_matches.set(0);
+            let ac = self.in_any_cond.replace(true);
             let r = self.seq(&mut benv, tin, &b.cond, tail && b.cons.is_none() && is_last, c);
+            self.in_any_cond.set(ac);
             self.in_cond.set(ic);
             self.multi_match_cond.set(mm);
             self.non_last_cond.set(nl);
@@ -875,6 +878,32 @@ fn pins_of(p: &Pat) -> Vec<String> {
     }
 }
 
+/// a binder that occurs twice with at least one occurrence below the top level of a tuple pattern
+fn nested_repeat(p: &Pat) -> bool {
+    fn collect(q: &Pat, depth: usize, out: &mut Vec<(String, usize)>) {
+        match q {
+            Pat::Bind(x) | Pat::As(_, x) => out.push((x.clone(), depth)),
+            Pat::Tup(_, fs) => fs.iter().for_each(|(_, r)| collect(r, depth + 1, out)),
+            Pat::Part(_, fs) => fs.iter().for_each(|(l, r)| match r {
+                Some(r) => collect(r, depth + 1, out),
+                None => out.push((l.clone(), depth + 1)),
+            }),
+            _ => {}
+        }
+    }
+    let mut occ = vec![];
+    collect(p, 0, &mut occ);
+    occ.iter().enumerate().any(|(i, (x, d))| occ.iter().enumerate().any(|(j, (y, e))| i != j && x == y && (*d >= 2 || *e >= 2)))
+}
+
+fn pat_has_value_requirement_below(p: &Pat) -> bool {
+    match p {
+        Pat::Tup(_, fs) => fs.iter().any(|(_, q)| matches!(q, Pat::Lit(_) | Pat::Str(_) | Pat::Pin(_)) || pat_has_value_requirement_below(q)),
+        Pat::Part(_, fs) => fs.iter().any(|(_, q)| q.as_ref().map(|q| matches!(q, Pat::Lit(_) | Pat::Str(_) | Pat::Pin(_)) || pat_has_value_requirement_below(q)).unwrap_or(false)),
+        _ => false,
+    }
+}
+
 fn alt_of_structured(p: &Pat) -> bool {
     match p {
         Pat::Alt(ps) => ps.iter().any(|q| !matches!(q, Pat::Lit(_) | Pat::Type(_) | Pat::Wild) && !matches!(q, Pat::Tup(_, fs) if fs.is_empty())),
@@ -942,7 +971,7 @@ pub fn validate(p: &Program) -> R<()> {
     if p.prints_ambiguously() {
         return Err("prints ambiguously".into());
     }
-    let v = V { flow: std::cell::Cell::new((false, true)), last_narrows: std::cell::Cell::new(false), in_field: std::cell::Cell::new(0), in_cond: std::cell::Cell::new(false), multi_match_cond: std::cell::Cell::new(false), non_last_cond: std::cell::Cell::new(false), prov_matches: std::cell::Cell::new(0) };
+    let v = V { flow: std::cell::Cell::new((false, true)), last_narrows: std::cell::Cell::new(false), in_field: std::cell::Cell::new(0), in_cond: std::cell::Cell::new(false), multi_match_cond: std::cell::Cell::new(false), non_last_cond: std::cell::Cell::new(false), prov_matches: std::cell::Cell::new(0), in_any_cond: std::cell::Cell::new(false) };
     let cx = Cx { param: None, rec: false };
     let mut env = Env::default();
     let n = p.steps.len();
